@@ -473,6 +473,19 @@ def render_ts(case):
     kind = case["tscase"]
     lines = ["import { defineComponent, type SetupContext } from 'vue'"]
     env, vals, exports = {}, {}, []
+    if kind == "graph":
+        def body(b, name):
+            if b["k"] == "leaf":
+                return "{ k" + name.lower() + ": string }"
+            if b["k"] == "ref":
+                return b["n"]
+            return b["a"]["n"] + " & " + b["b"]["n"]
+        for name in sorted(case["graph"]):
+            lines.append(f'type {name} = {body(case["graph"][name], name)}')
+        lines.append(f'export const C = defineComponent((props: {case["root"]}) => () => null)')
+        return {"case": case["case"], "src": "\n".join(lines) + "\n", "lang": "tsx",
+                "opts": case.get("optsJson") or opts_json(case["opts"]), "want": [], "env": {}, "vals": {},
+                "exports": [{"name": "C", "kind": "value"}], "pragmas": [], "other_imports": {}}
     if kind == "call":
         O = "{ props: ['u'], name: 'N' }"
         shape, prov, decl = case["shape"], case["prov"], case["decl"]
